@@ -6,10 +6,12 @@ set -u
 cd "$(dirname "$0")"
 export CARGO_NET_OFFLINE=true
 mkdir -p evidence replay work
-for c in wl-pure wl-core; do
+for c in wl-pure wl-core wl-hook; do
   if [ -d "$c" ]; then
     [ -f "$c/Cargo.lock" ] || cp /repo/Cargo.lock "$c/Cargo.lock"
     (cd "$c" && cargo build --release --offline 2>&1 | tail -2)
   fi
 done
+# the hook dylib for the LD_PRELOAD interposition harness (rebuilt incrementally by the checks)
+cargo build --release -p open-coroutine-hook --offline --manifest-path /repo/Cargo.toml --target-dir wl-hook/target-dylib 2>&1 | tail -1
 exit 0
